@@ -47,6 +47,7 @@ type bctx struct {
 	cs     consensus.State
 	h      uint64 // child height
 	median time.Time
+	forceTS *time.Time // explicit block timestamp (scripted blocks)
 	rng    *rand.Rand
 
 	usedSC    map[types.SiacoinOutputID]bool
@@ -468,6 +469,9 @@ func Mine(cs consensus.State, b *types.Block) error {
 }
 
 func (x *bctx) timestamp(mode string) time.Time {
+	if x.forceTS != nil {
+		return *x.forceTS
+	}
 	parent := x.cs.PrevTimestamps[0]
 	iv := x.c.Net.N.BlockInterval
 	if iv < time.Second {
